@@ -3,6 +3,8 @@ import AGV.Props.C34
 #print axioms AGV.Props.C34.c34_contained
 #print axioms AGV.Props.C34.c34_title
 #print axioms AGV.Props.C34.c34_page
+#print axioms AGV.Props.C34.c34_members
+#print axioms AGV.Props.C34.c34_violated_by_missingComma
 #print axioms AGV.Props.C34.c34_violated_by_entitiesInScript
 #print axioms AGV.Props.C34.c34_violated_by_backslashRaw
 #print axioms AGV.Props.C34.c34_violated_by_controlsRaw
